@@ -296,33 +296,16 @@ func funcToListVec(chunk []KVPair, args []Expression, ctx *ExecuteCtx) ([]any, e
 	if len(args) == 0 || len(chunk) == 0 {
 		return nil, nil
 	}
-	first, err := args[0].Execute(chunk[0], ctx)
-	if err != nil {
-		return nil, err
-	}
-	useInt := false
-	switch fval := first.(type) {
-	case string:
-		if _, err := strconv.ParseInt(fval, 10, 64); err == nil {
-			useInt = true
-		} else if _, err := strconv.ParseFloat(fval, 64); err == nil {
-			useInt = false
+	// The element kind depends on the first argument of each row
+	ret := make([]any, len(chunk))
+	for i := 0; i < len(chunk); i++ {
+		row, err := funcToList(chunk[i], args, ctx)
+		if err != nil {
+			return nil, err
 		}
-	case []byte:
-		if _, err := strconv.ParseInt(string(fval), 10, 64); err == nil {
-			useInt = true
-		} else if _, err := strconv.ParseFloat(string(fval), 64); err == nil {
-			useInt = false
-		}
-	case int, uint, int32, uint32, int64, uint64:
-		useInt = true
-	case float32, float64:
-		useInt = false
+		ret[i] = row
 	}
-	if useInt {
-		return funcIntListVec(chunk, args, ctx)
-	}
-	return funcFloatListVec(chunk, args, ctx)
+	return ret, nil
 }
 
 func funcLenVec(chunk []KVPair, args []Expression, ctx *ExecuteCtx) ([]any, error) {
